@@ -540,6 +540,19 @@ class P:
             return ("un", "!", self.unary(nostruct))
         if self.accept("op", "-"):
             raise Untranslatable("unary minus")
+        if self.peek() == ("op", "|"):
+            self.next()
+            names = []
+            while not self.accept("op", "|"):
+                self.accept("op", "&")
+                self.accept("id", "mut")
+                names.append(self.expect("id"))
+                if self.accept("op", ":"):
+                    self.type_tokens()
+                self.accept("op", ",")
+            return ("closure", names, self.expr())
+        if self.accept("id", "move"):
+            return self.unary(nostruct)
         return self.postfix(nostruct)
 
     def args(self):
